@@ -8,13 +8,13 @@ NEEDS = json.load(open(os.path.join(HERE, "vf", "seedneeds.json")))
 
 def main():
     rows = []
-    for ev in sorted(glob.glob("/tmp/seed/eval/C*-[AB]*.json")):
+    for ev in sorted(glob.glob("/tmp/seed/eval/C*-[A-F]*.json")):
         try:
             d = json.load(open(ev))
         except Exception:
             continue
         name = os.path.basename(ev)[:-5]          # C13-A or C13-A.v2
-        m = re.match(r"(C\d\d)-([AB])(.*)", name)
+        m = re.match(r"(C\d\d)-([A-F])(.*)", name)
         prop, var = m.group(1), m.group(2)
         sid = "%s-%s" % (prop, var)
         src = "/tmp/seed/out/%s/%s" % (prop, var)
